@@ -671,11 +671,12 @@ func exitWalk(start, pred *ssa.BasicBlock) string {
 }
 
 // checkRecorded (verdict.recorded): under -json (*Runner).Run drops the error of r.run. That is sound only if
-//   (a) the dropped error can only be ErrParser (the continue-edge is guarded by a comparison with ErrParser), and
-//   (b) every return of ErrParser in cmd/falco is preceded, on every -json path, by a store into Runner.parseErrors,
-//       where the `.(*parser.ParseError)` assertions on the way are known to hold: the asserted value is
-//       errors.Cause(err) of a parser error (C01 err.located: every parser error is a *ParseError) or
-//       Linter.FatalError.Error, which (c) the linter only ever fills with errors.Cause(parser error).
+//
+//	(a) the dropped error can only be ErrParser (the continue-edge is guarded by a comparison with ErrParser), and
+//	(b) every return of ErrParser in cmd/falco is preceded, on every -json path, by a store into Runner.parseErrors,
+//	    where the `.(*parser.ParseError)` assertions on the way are known to hold: the asserted value is
+//	    errors.Cause(err) of a parser error (C01 err.located: every parser error is a *ParseError) or
+//	    Linter.FatalError.Error, which (c) the linter only ever fills with errors.Cause(parser error).
 func checkRecorded(c *core.Ctx, mainFuncs []*ssa.Function) {
 	prog := c.Prog
 	run := prog.SSAFunc("cmd/falco", "Runner.Run")
